@@ -50,7 +50,7 @@ import zlib
 from engines import enumerate as E
 from engines import mutfault as MF
 from engines import statespace as SS
-from engines.common import Acc, HarnessError, fresh_dir, git, pmap_acc, replay_generic, rmtree, rp, split
+from engines.common import Acc, HarnessError, fresh_dir, git, replay_generic, rmtree, rp, split
 
 BASE = 1_000_000_000
 STEP = 1000
@@ -1686,6 +1686,66 @@ def work(task):
     return acc
 
 
+def _robust_entry(task):
+    try:
+        return ("ok", work(task))
+    except BaseException as e:  # a bug of the check inside a worker
+        import traceback
+
+        return ("err", "%r\n%s" % (e, traceback.format_exc()))
+
+
+def _pool_init():
+    import signal
+
+    signal.signal(signal.SIGTERM, signal.SIG_DFL)
+
+
+def pmap_robust(tasks, acc, jobs):
+    """Like common.pmap_acc(work, ...), but survives the death of pool workers (OOM kill, a replaced
+    extension .so, a stray signal): multiprocessing.Pool silently loses the task of a dead worker and
+    waits for ever; here the pool is rebuilt and the unfinished tasks (deterministic, idempotent) are run
+    again.  A task whose worker dies three times is a HarnessError."""
+    import concurrent.futures as cf
+    import multiprocessing as mp
+
+    tasks = list(tasks)
+    if not tasks:
+        return acc
+    pending = dict(enumerate(tasks))
+    deaths = {}
+    while pending:
+        ex = cf.ProcessPoolExecutor(max_workers=max(1, min(jobs, len(pending))), mp_context=mp.get_context("fork"),
+                                    initializer=_pool_init)
+        futs = {ex.submit(_robust_entry, t): i for i, t in pending.items()}
+        broken = False
+        try:
+            for f in cf.as_completed(futs):
+                i = futs[f]
+                try:
+                    st, r = f.result()
+                except cf.process.BrokenProcessPool:
+                    broken = True
+                    continue
+                if st == "err":
+                    raise HarnessError("worker failed: " + r)
+                acc.merge(r)
+                del pending[i]
+        finally:
+            ex.shutdown(wait=True, cancel_futures=True)
+        if broken:
+            acc.count("pool_rebuilt_after_worker_death")
+            for i in pending:
+                deaths[i] = deaths.get(i, 0) + 1
+            worst = [i for i, n in deaths.items() if n >= 3 and i in pending]
+            # every pending task is charged although only one killed the pool: allow one round per pending task
+            if worst and len(pending) <= 3:
+                raise HarnessError("pool workers keep dying on task(s) %r" % [pending[i][:2] for i in worst])
+            if max(deaths.values()) > 8:
+                raise HarnessError("pool workers keep dying (%d tasks left)" % len(pending))
+    return acc
+
+
 QUICK_N4 = (
     ((), (0,), (1,), (2,)),  # chain
     ((), (0,), (0,), (1, 2)),  # diamond
@@ -1764,11 +1824,11 @@ def run(ctx):
 
     tasks = sorted(tasks, key=lambda t: -len(t[1]))  # big histories first (load balance); order is seed-permuted below
     alltasks = ctx.order(tasks) if ctx.seed else tasks
-    pmap_acc(work, alltasks, ctx.acc, jobs=ctx.jobs)
+    pmap_robust(alltasks, ctx.acc, ctx.jobs)
     ctx.acc.note("t_after_histories", round(ctx.elapsed(), 1))
-    pmap_acc(work, ftasks, ctx.acc, jobs=ctx.jobs)
+    pmap_robust(ftasks, ctx.acc, ctx.jobs)
     ctx.acc.note("t_after_foreign", round(ctx.elapsed(), 1))
-    pmap_acc(work, dtasks, ctx.acc, jobs=ctx.jobs)
+    pmap_robust(dtasks, ctx.acc, ctx.jobs)
     ctx.acc.note("t_after_damage", round(ctx.elapsed(), 1))
     t = os.times()
     cpu = t.user + t.system + t.children_user + t.children_system
